@@ -17,7 +17,7 @@ def rule_expected(model_verdict: str, impl_answer: str) -> str:
     """What the rule application must answer given the Lean verdict for the roles the code is SUPPOSED to
     pass: `<op>:<side>:no` or `<op>:<side>:fired:<in0>,<in1>` with the operands in their original order."""
     op, side, _ = impl_answer.split(":", 2)
-    if model_verdict in ("ok1", "ok2", "ok3"):
+    if model_verdict == "T":
         return f"{op}:{side}:fired:" + ("xin,yin" if side == "0" else "yin,xin")
     return f"{op}:{side}:no"
 
@@ -101,7 +101,7 @@ def gen_helper_cases(rng, R: L.Real, n: int, stats: Counter):
             use_set = rng.random() < 0.5
             add(
                 "ruleExpandBinary",
-                f"expandRemovable {L.enc_shape(rx)} {L.enc_shape(ry)} {L.enc_ints(rconst)} {L.enc_shape(reo)} {L.enc_shape(rbo)}",
+                f"ruleFires {op} {side} {1 if use_set else 0} {L.enc_shape(rx)} {L.enc_shape(ry)} {L.enc_ints(rconst)} {L.enc_shape(reo)} {L.enc_shape(rbo)}",
                 lambda op=op, side=side, a=rx, b=ry, tk=tkind, c=rconst, eo=reo, bo=rbo, us=use_set: (
                     f"{op}:{side}:" + R.rule_expand_binary(op, side, a, b, tk, c, eo, bo, us)),
             )
